@@ -3,8 +3,8 @@
 Theorems: coq/Properties/C10.v (exact times for every digit string of the pattern and every clock of the grammar;
 round trip read(print f) = cues f for EVERY grammar-conforming file through either kind of stream; tag scoping
 for one cue text; tolerance of counters / blank runs / hour width / white space / terminators / stream; reading
-every text of the form the SRT writer emits returns the cues written, below 1000 h), the one refuted statement
-in coq/Findings/C10.v.
+every text of the form the SRT writer emits returns the cues written; no exception but ValueError).  No finding is
+recorded (coq/Findings/C10.v holds no statement).
 
 Ties, all evaluated inside Coq on generated case files:
   * M = code : Model/SrtReader.v `to_model` against ttconv.srt.reader.to_model on (a) files printed from
@@ -79,9 +79,15 @@ def p_node(n):
 
 def p_nodes(ns): return "".join(p_node(n) for n in ns)
 
+def p_hours(h, w):
+    """h in w digits (w may exceed the interpreter's limit for int -> str conversion, so no % formatting)"""
+    ds = []
+    for _ in range(w): ds.append(chr(48 + h % 10)); h //= 10
+    return "".join(reversed(ds))
+
 def p_clock(k):
-    h, wide, m, s, ms = k
-    return ("%03d" if wide else "%02d") % h + ":%02d:%02d,%03d" % (m, s, ms)
+    h, w, m, s, ms = k
+    return p_hours(h, w) + ":%02d:%02d,%03d" % (m, s, ms)
 
 def cue_lines(c):
     return [c["counter"], p_clock(c["begin"]) + c["ws1"] + "-->" + c["ws2"] + p_clock(c["end"]) + c["tail"]] + \
@@ -109,7 +115,21 @@ def l_node(n):
     if t == "f": return f"NFont {l_colspec(n[1])} {n[2]} {l_nodes(n[3])}"
     if t == "s": return f"NStray {n[1]} {n[2]}"
 def l_nodes(ns): return "[" + ";".join(l_node(n) for n in ns) + "]"
-def l_clock(k): return f"(mkClock {k[0]} {C.boolean(k[1])} {k[2]} {k[3]} {k[4]})"
+def l_clock(k): return f"(mkClock {l_big(k[0])} {k[1]}%nat {k[2]} {k[3]} {k[4]})"
+def l_big(n):
+    """a Z literal of a non-negative number; beyond the interpreter's int -> str limit it is written as a sum of 4000-digit pieces
+    (the limit itself must stay as it is: the implementation runs in this process and its int() obeys it)"""
+    if n < 10 ** 4000: return str(n)
+    q, r = divmod(n, 10 ** 4000)
+    return f"({l_big(q)} * 10 ^ 4000 + {r})"
+def l_z(n): return l_big(n) if n >= 0 else f"(- {l_big(-n)})"
+def big_str(n):
+    """str(n) without the limit"""
+    if n < 0: return "-" + big_str(-n)
+    if n < 10 ** 4000: return str(n)
+    q, r = divmod(n, 10 ** 4000)
+    return big_str(q) + str(r).zfill(4000)
+def frac_str(x): return big_str(x.numerator) + ("" if x.denominator == 1 else "/" + str(x.denominator))
 def l_cue(c):
     return (f"(mkCue {l_text(c['counter'])} {l_clock(c['begin'])} {l_text(c['ws1'])} {l_text(c['ws2'])} {l_clock(c['end'])} "
             f"{l_text(c['tail'])} {l_nodes(c['payload'])} [{';'.join(l_text(b) for b in c['blank'])}])")
@@ -195,13 +215,22 @@ def gen_payload(rng, feat):
     return [("c", 120)]
 
 
-def gen_clock(rng, wide=None):
-    if wide is None: wide = rng.random() < 0.25
-    h = rng.choice([0, 0, 0, 1, rng.randrange(0, 24), rng.randrange(0, 100), 99]) if not wide else rng.choice([0, 7, 99, 100, 999, rng.randrange(0, 1000)])
+MAX_HOUR_DIGITS = 4300          # Spec/SrtCueSpec.v max_hour_digits (= sys.get_int_max_str_digits() of the interpreter)
+
+def gen_clock(rng, width=None):
+    """(hours, width of the hour field >= 2, minutes, seconds, milliseconds)"""
+    if width is None:
+        x = rng.random()
+        width = 2 if x < 0.6 else 3 if x < 0.75 else rng.choice([4, 4, 5, 6]) if x < 0.9 else rng.randrange(7, 25) if x < 0.9995 else rng.choice([MAX_HOUR_DIGITS, 640, 1000])
+    if width == 2: h = rng.choice([0, 0, 0, 1, rng.randrange(0, 24), rng.randrange(0, 100), 99])
+    elif width > 24:      # long fields: mostly leading zeros (evaluating the printed form of a number of thousands of digits inside Coq takes minutes)
+        h = rng.choice([0, 7, 1000, 10 ** rng.randrange(3, 40) - 1, rng.randrange(0, 10 ** 40), rng.randrange(0, 10 ** min(width, 300)), 10 ** min(width, 300) - 1])
+    else: h = rng.choice([0, 7, 99, 100, 999, 1000, 10 ** (width - 1), 10 ** width - 1, rng.randrange(0, 10 ** width), rng.randrange(0, 10 ** width)])
+    if h >= 10 ** width: h = 10 ** width - 1
     m = rng.choice([0, 59, rng.randrange(60), rng.randrange(60), rng.randrange(100), 99])
     s = rng.choice([0, 59, rng.randrange(60), rng.randrange(60), rng.randrange(100), 99])
     ms = rng.choice([0, 999, 280, 70, 1, rng.randrange(1000), rng.randrange(1000), rng.randrange(1000)])
-    return (h, wide, m, s, ms)
+    return (h, width, m, s, ms)
 
 
 def gen_file(rng, feat):
@@ -243,7 +272,7 @@ def gen_doc(rng):
     b = m.Body(d); d.set_body(b); b.set_region(r)
     t = Fraction(rng.randrange(0, 5000), 1000)
     if rng.random() < 0.1: t += rng.choice([3600, 36000, 360000 - 40, 99 * 3600])
-    if rng.random() < 0.04: t += rng.choice([3600000 - 2, 3600000, 999 * 3600 + 3590, 12345 * 3600])     # around and beyond 999 h
+    if rng.random() < 0.06: t += rng.choice([3600000 - 2, 3600000, 999 * 3600 + 3590, 12345 * 3600, 10 ** rng.randrange(7, 30) * 3600 - 1])     # around and beyond 999 h
     def styled(e):
         if rng.random() < 0.3: e.set_style(SP.FontWeight, s.FontWeightType.bold)
         if rng.random() < 0.3: e.set_style(SP.FontStyle, s.FontStyleType.italic)
@@ -276,7 +305,7 @@ def gen_doc(rng):
     return d
 
 
-TC_RE = re.compile(r"^(\d{2,3}):(\d{2}):(\d{2}),(\d{3}) --> (\d{2,3}):(\d{2}):(\d{2}),(\d{3})$")
+TC_RE = re.compile(r"^([0-9]{2,}):([0-9]{2}):([0-9]{2}),([0-9]{3}) --> ([0-9]{2,}):([0-9]{2}):([0-9]{2}),([0-9]{3})$")
 TAG_RE = re.compile(r'<(b|i|u)>|</(b|i|u|font)>|<font color="#([0-9a-f]{8})">')
 
 def deparse_payload(txt):
@@ -314,19 +343,19 @@ def deparse(txt):
         ls = b.split("\n")
         if len(ls) < 3 or not ls[0].isascii() or not ls[0].isdigit(): return None
         mt = TC_RE.match(ls[1])
-        if not mt: return None
+        if not mt or len(mt.group(1)) > MAX_HOUR_DIGITS or len(mt.group(5)) > MAX_HOUR_DIGITS: return None
         g = mt.groups()
         payload = deparse_payload("\n".join(ls[2:]))
         if payload is None or not payload_ok(payload): return None
-        cues.append(dict(counter=ls[0], begin=(int(g[0]), len(g[0]) == 3, int(g[1]), int(g[2]), int(g[3])), ws1=" ", ws2=" ",
-                         end=(int(g[4]), len(g[4]) == 3, int(g[5]), int(g[6]), int(g[7])), tail="", payload=payload,
+        cues.append(dict(counter=ls[0], begin=(int(g[0]), len(g[0]), int(g[1]), int(g[2]), int(g[3])), ws1=" ", ws2=" ",
+                         end=(int(g[4]), len(g[4]), int(g[5]), int(g[6]), int(g[7])), tail="", payload=payload,
                          blank=[] if k == len(blocks) - 1 else [""]))
     f = dict(lead=[], cues=cues, crlf=False, final_eol=True)
     return f if print_file(f) == txt else None
 
 
 # ---- the writer's output as the abstract description of Spec/SrtWriterOut.v (list wcue); None when it is not of that form
-WTC_RE = re.compile(r"^(\d{2,}):(\d{2}):(\d{2}),(\d{3}) --> (\d{2,}):(\d{2}):(\d{2}),(\d{3})$")
+WTC_RE = re.compile(r"^([0-9]{2,}):([0-9]{2}):([0-9]{2}),([0-9]{3}) --> ([0-9]{2,}):([0-9]{2}):([0-9]{2}),([0-9]{3})$")
 
 def deparse_w(txt):
     if txt == "": return []
@@ -336,7 +365,7 @@ def deparse_w(txt):
         ls = b.split("\n")
         if len(ls) < 3 or not ls[0].isascii() or not ls[0].isdigit(): return None
         mt = WTC_RE.match(ls[1])
-        if not mt: return None
+        if not mt or len(mt.group(1)) > MAX_HOUR_DIGITS or len(mt.group(5)) > MAX_HOUR_DIGITS: return None
         g = [int(x) for x in mt.groups()]
         if (len(mt.group(1)) > 2 and mt.group(1)[0] == "0") or (len(mt.group(5)) > 2 and mt.group(5)[0] == "0"): return None
         payload = deparse_payload("\n".join(ls[2:]))
@@ -366,18 +395,24 @@ def l_wnodes(ns):
     return "[" + ";".join(out) + "]"
 
 def l_wcues(cs):
-    return "[" + ";".join(f"W {C.text(c['counter'])} {c['begin']} {c['end']} {l_wnodes(c['payload'])}" for c in cs) + "]"
+    return "[" + ";".join(f"W {C.text(c['counter'])} {l_big(c['begin'])} {l_big(c['end'])} {l_wnodes(c['payload'])}" for c in cs) + "]"
 
 
 # ---- malformed / out-of-grammar texts
 SNIPPETS = ["<", ">", "</", "</b>", "<b>", "<i>", "</i>", "<u>", "&", "&amp", "&amp;", "&#", "&#65", "&#x41;", "&lt", "&notit;", "&copy", ";", "{", "}", "{b}", "{/b}",
             "{bold}", "{/italic}", "\\n\\r", "\n", "\n\n", "\r", "\r\n", " ", "\t", "-->", "->", ":", ",", ".", "0", "12", "<br>", "<br/>", "<br />", "<font>",
-            "<font color>", "<font color=>", "<font color=zzz>", "<font color=red>", "<font color='#00ff00'>", "<font size=3 color=\"blue\">", "</font>",
+            "<font color>", "<font color=>", "<font color=\"\">", "<font color=''>", "<font color color=red>", "<font color=\"\" color=red>", "<font color=red color=blue>",
+            "<font COLOR color='#00ff00' color>", "<font color color>", "<font color size=2 color=\"#0000ff80\">", "<font color=zzz>", "<font color=red>", "<font color='#00ff00'>", "<font size=3 color=\"blue\">", "</font>",
             "<font color=rgb(1,2,3)>", "<font color=\"rgba(1,2,3,4)\">", "<font color=\"rgb( 1 , 2 , 300 )\">", "<FONT COLOR=Red>", "<font  face=\"a>b\" color=#123456>",
             "<font color=&#35;ff0000>", "<font color=\"#ff00\">", "<font color=#ff000080>", "<font color=#FF0000zz>",
+            # parse_color: trailing characters, components above 255, digits and white space outside ASCII, characters that lower-case into ASCII
+            "<font color=#00ff00x>", "<font color=\"#00ff00 \">", "<font color=#0000ff801>", "<font color=#0000ff8>", "<font color=\"rgb(1,2,3) \">", "<font color=rgb(1,2,3)x>",
+            "<font color=\"rgba(1,2,3,4);\">", "<font color=rgb(256,0,0)>", "<font color=rgb(255,255,255)>", "<font color=rgba(0,0,0,256)>", "<font color=\"rgba(1, 2, 3, 999)\">",
+            "<font color=rgb(\u0661,\u0662,\u0663)>", "<font color=rgb(\uff11,2,3)>", "<font color=\"rgb(1,\u00a02,3)\">", "<font color=\"rgb(1,\x1c2,3)\">", "<font color=\"rgb(1,\x0b2,\x0c3)\">",
+            "<font color=blac\u212a>", "<font color=\u212a>", "<font color=RGB(1,2,3)>", "<font color=rgb(01,002,0003)>", "<font color=rgb(0256,0,0)>", "<font color=\" rgb(1,2,3)\">",
             "<!-- x -->", "<!x>", "<?x>", "<script>", "<style>", "</>", "</ b>", "</1>", "</b x>", "<b/>", "<b x>", "<b x=1 y>", "<bold>", "<Italic>", "<x>", "<a href=\"x\">", "<b\n>",
             "< b>", "<1>", "a<b", "&#1;", "&#128;", "&#xD800;", "&#1114112;", "&#0;", "&#x;", "&#;", "&x;", "&ampere", "&AMP;", "&Amp;", "\x00", " ", "　", "\x1c",
-            "٣", "00:00:01,000 --> 00:00:02,000", "1234:00:00,000 --> 1234:00:01,0000", "00:00:01.000 --> 00:00:02.000", "0:00:01,000 --> 0:00:02,000"]
+            "٣", "00:00:01,000 --> 00:00:02,000", "1234:00:00,000 --> 1234:00:01,0000", "1000:00:00,000 --> 12345678901234567890:00:01,000", "0001:00:00,000 --> 00002:00:00,000", "00:00:01.000 --> 00:00:02.000", "0:00:01,000 --> 0:00:02,000"]
 
 def mutate(rng, txt):
     s = txt
@@ -415,8 +450,12 @@ def u_tag(rng):
     if x < 0.84: return "<%s/>" % n
     if x < 0.88: return "</%s%s>" % (rng.choice([" ", "\t", "\x0b", ""]), n) if rng.random() < 0.5 else "</%s%s>" % (n, rng.choice([" ", " x", "\x0b", "/", "$", "\n"]))
     if x < 0.94: return rng.choice(['<font color="%s">', "<font color='%s'>", "<font color=%s>", '<FONT COLOR="%s">', '<font size="2" color="%s">']) % \
-                        rng.choice(["red", "#00ff00", "#0000ff80", "Blue", "zzz", "", "rgb(1,2,3)", "rgba(1,2,3,4)", "#12", "é"])
-    return rng.choice(["<font>", "<font color>", "</font>", "</>", "</ >", "<>", "< b>", "<b", "</b", "<!-- c -->", "<!x>", "<![CDATA[x]]>", "<![a", "<?pi?>", "<script>", "<b x='>'>", "<b\n>"])
+                        rng.choice(["red", "#00ff00", "#0000ff80", "Blue", "zzz", "", "rgb(1,2,3)", "rgba(1,2,3,4)", "#12", "é",
+                                    "#00ff00x", "#0000ff8", "#0000ff80f", "rgb(1,2,3)x", "rgba(1,2,3,4)-", "rgb(256,2,3)", "rgba(1,2,3,300)", "rgb(%d,%d,%d)" % (rng.randrange(300), rng.randrange(300), rng.randrange(300)),
+                                    "rgb(\u0661,2,3)", "rgba(1,2,\uff13,4)", "rgb(1,\u20032,3)", "blac\u212a", "rgb(255,255,255)"])
+    if x < 0.955: return rng.choice(["<font color color=%s>", "<font color=%s color=blue>", '<font color="" color=%s>', "<font color size=3 color='%s' color>", "<FONT Color COLOR=%s>"]) % \
+                         rng.choice(["red", "#00ff00", "#0000ff80", "zzz", "Blue"])
+    return rng.choice(["<font>", "<font color>", "<font color=\"\">", "<font color color>", "</font>", "</>", "</ >", "<>", "< b>", "<b", "</b", "<!-- c -->", "<!x>", "<![CDATA[x]]>", "<![a", "<?pi?>", "<script>", "<b x='>'>", "<b\n>"])
 
 def u_timing(rng):
     a = p_clock(gen_clock(rng)); b = p_clock(gen_clock(rng)); x = rng.random()
@@ -424,8 +463,11 @@ def u_timing(rng):
     if x < 0.65: return rng.choice(["", " ", "x", "9", "\ufeff"]) + a + " --> " + b
     if x < 0.72: return a + "-->" + b
     if x < 0.79: return a.replace(",", ".") + " --> " + b.replace(",", ".")
-    if x < 0.86: return str(rng.randrange(1000, 20000)) + a[2:] + " --> " + b
-    if x < 0.93: return a + " --> " + str(rng.randrange(1000, 20000)) + b[2:]
+    if x < 0.86: return str(rng.randrange(1000, 20000)) + a[a.index(":"):] + " --> " + b
+    if x < 0.925: return a + " --> " + str(rng.randrange(1000, 10 ** rng.choice([5, 9, 19, 40]))) + b[b.index(":"):]
+    if x < 0.93:                      # an hour field at or just beyond what int() converts: ValueError beyond
+        n = rng.choice([MAX_HOUR_DIGITS, MAX_HOUR_DIGITS + 1]); hh = rng.choice(["0", "1", "9"]) * n
+        return (hh + a[a.index(":"):] + " --> " + b) if rng.random() < 0.5 else (a + " --> " + hh + b[b.index(":"):])
     return a[1:] + " --> " + b
 
 def u_text_line(rng):
@@ -533,7 +575,7 @@ def l_elem(e):
     if e[0] == "text": return "EText " + C.text(e[1])
     (b, i, u, c), kids = e[1], e[2]
     if not (b or i or u) and c is None and len(kids) == 1 and kids[0][0] == "text": return "D " + C.text(kids[0][1])
-    cs = "None" if c is None else f"(Some ({c[0]},{c[1]},{c[2]},{c[3]}))"
+    cs = "None" if c is None else f"(Some ({l_big(c[0])},{l_big(c[1])},{l_big(c[2])},{l_big(c[3])}))"
     return f"Sp {C.boolean(b)} {C.boolean(i)} {C.boolean(u)} {cs} [" + ";".join(l_elem(k) for k in kids) + "]"
 
 def l_out(o):
@@ -542,7 +584,7 @@ def l_out(o):
     if o[0] == "shape": return "(Raised EValueError)"     # never reached: shape failures are reported before the case files are written
     ps = []
     for b, e, kids in o[1]:
-        ps.append(f"Pq {C.z(b.numerator)} {b.denominator} {C.z(e.numerator)} {e.denominator} [" + ";".join(l_elem(k) for k in kids) + "]")
+        ps.append(f"Pq {l_z(b.numerator)} {b.denominator} {l_z(e.numerator)} {e.denominator} [" + ";".join(l_elem(k) for k in kids) + "]")
     return "(Ok [" + ";".join(ps) + "])"
 
 def flat(o):
@@ -557,17 +599,20 @@ def flat(o):
     for b, e, kids in o[1]:
         it = []
         for k in kids: it += walk(k, (False, False, False, None))
-        res.append([str(b), str(e), it])
+        res.append([frac_str(b), frac_str(e), it])
     return res
 
+
+def show(o):
+    """an outcome as text (never through str() of a huge integer)"""
+    return str(flat(o) if o[0] == "ok" else o)
 
 # ------------------------------------------------------------------------------------------------
 HEADER = ("From TT Require Import Base.Prelude Base.SrtTypes Gen.SrtTables Model.SrtReader Spec.SrtCueSpec Spec.SrtWriterOut Model.SrtReaderCases.\n"
           "From Coq Require Import QArith.\nLocal Open Scope Z_scope.\n")
 GEVALS = ["print_ok", "(fun g => model_ok (tc_of g))", "(fun g => modelled (tc_of g))", "spec_ok", "model_spec"]
 TEVALS = ["model_ok", "modelled"]
-WEVALS = ["wprint_ok", "wspec_ok", "wspec_strict", "(fun w => negb (wtrig_hours w))", "wmodel_spec"]
-HOURS_FINDING = "hours-beyond-999-rejected"
+WEVALS = ["wprint_ok", "wspec_ok", "wmodel_spec"]
 
 
 def coqc_case(path, timeout=1800):
@@ -601,7 +646,7 @@ def replay(run, path):
         body += "Eval vm_compute in check_all (map (fun g => model_ok (tc_of g)) gs).\nEval vm_compute in check_all (map spec_ok gs).\n"
     elif d.get("written_cues"):
         body += f"Definition ws : list wcase := [({d['written_cues']}, {C.boolean(tr)}, {C.text(txt)}, {l_out(o)})].\n"
-        body += "Eval vm_compute in check_all (map (fun w => let '(_, tr, txt, out) := w in model_ok (tr, txt, out)) ws).\nEval vm_compute in check_all (map wspec_strict ws).\n"
+        body += "Eval vm_compute in check_all (map (fun w => let '(_, tr, txt, out) := w in model_ok (tr, txt, out)) ws).\nEval vm_compute in check_all (map wspec_ok ws).\n"
     else:
         body += f"Definition ts : list tcase := [({C.boolean(tr)}, {C.text(txt)}, {l_out(o)})].\n"
         body += "Eval vm_compute in check_all (map model_ok ts).\nEval vm_compute in check_all (map model_ok ts).\n"
@@ -643,6 +688,7 @@ def main():
     if changed: run.log("tables regenerated:", changed)
     ok, log = run.build(["Proofs/C10/Time.vo", "Proofs/C10/Lines.vo", "Proofs/C10/Text.vo", "Proofs/C10/Roundtrip.vo", "Proofs/C10/NoFinalEol.vo",
                          "Proofs/C10/Font.vo", "Proofs/C10/Refs.vo", "Proofs/C10/Tags.vo", "Proofs/C10/Brace.vo", "Proofs/C10/Writer.vo", "Proofs/C10/Witness.vo",
+                         "Proofs/C10/Outcomes.vo",
                          "Model/SrtReaderCases.vo"], clean=(run.tier == "thorough"))
     proofs_ok = ok and run.theorems()
     if not ok: run.proof_log = log[-2500:]
@@ -659,7 +705,16 @@ def main():
 
     gcases, tcases, wcases = [], [], []        # (kind, file, translated, text, out) / (kind, translated, text, out) / (cues, translated, text, out)
     sfail_py = []                   # failures decided in python: shape / float times
-    hist = dict(cues={}, lines={}, mode={"translated": 0, "stringio": 0}, crlf=0, kinds={})
+    hist = dict(cues={}, lines={}, mode={"translated": 0, "stringio": 0}, crlf=0, kinds={}, hour_width={},
+                font_color={"color attribute without a value": 0, "empty value": 0, "several color attributes": 0, "value with trailing characters": 0,
+                            "rgb()/rgba() component above 255": 0, "rgb()/rgba() with a character outside ASCII": 0}, long_hours={"4 or more digits": 0, "4300 digits": 0, "4301 digits": 0})
+    FC = [("value with trailing characters", re.compile(r"""(?i)\scolor=["']?(#[0-9a-f]{6}([0-9a-f]{2})?|rgba?\([^)>]*\))[^"'\s>]""")),
+          ("rgb()/rgba() component above 255", re.compile(r"rgba?\([^)>]*(?<![0-9])0*(25[6-9]|2[6-9][0-9]|[3-9][0-9]{2}|[1-9][0-9]{3,})(?![0-9])")),
+          ("rgb()/rgba() with a character outside ASCII", re.compile(r"rgba?\([^)>]*[^\x00-\x7f]")),
+          ("color attribute without a value", re.compile(r"(?i)<font[^>]*\scolor(\s+[a-z]|\s*>)")), ("empty value", re.compile(r"""(?i)<font[^>]*\scolor=(""|''|>|\s)""")),
+          ("several color attributes", re.compile(r"(?i)<font[^>]*\scolor[^>]*\scolor"))]
+    LH = [("4 or more digits", re.compile(r"(?<![0-9])[0-9]{4,}:[0-9]{2}:[0-9]{2},[0-9]{3}")), ("4300 digits", re.compile(r"(?<![0-9])[0-9]{4300}:[0-9]{2}:[0-9]{2},")),
+          ("4301 digits", re.compile(r"(?<![0-9])[0-9]{4301}:[0-9]{2}:[0-9]{2},"))]
     def bump(d, k): d[k] = d.get(k, 0) + 1
     seen_texts = set()
     def add_g(kind, f, txt, tr):
@@ -669,18 +724,40 @@ def main():
         gcases.append((kind, f, tr, txt, o)); seen_texts.add((txt, tr))
         bump(hist["cues"], str(min(len(f["cues"]), 50))); bump(hist["mode"], "translated" if tr else "stringio"); bump(hist["kinds"], kind)
         if f["crlf"]: hist["crlf"] += 1
-        for c in f["cues"]: bump(hist["lines"], str(p_nodes(c["payload"]).count("\n") + 1))
+        for c in f["cues"]:
+            bump(hist["lines"], str(p_nodes(c["payload"]).count("\n") + 1))
+            for k in (c["begin"], c["end"]): bump(hist["hour_width"], str(k[1]) if k[1] <= 3 else "4-6" if k[1] <= 6 else "7-24" if k[1] <= 24 else "640-4300")
     def add_t(kind, txt, tr):
         o = run_impl(txt, tr)
         if o[0] == "shape":
             sfail_py.append((kind, txt, tr, o[1])); return
         tcases.append((kind, tr, txt, o)); seen_texts.add((txt, tr)); bump(hist["kinds"], kind)
+        for name, rx in FC:
+            if rx.search(txt): hist["font_color"][name] += 1
+        for name, rx in LH:
+            if rx.search(txt): hist["long_hours"][name] += 1
 
     base_texts = []
     for _ in range(n_gram):
         f = gen_file(rng, gen_features(rng)); txt = print_file(f)
         tr = rng.random() < 0.5
         add_g("grammar", f, txt, tr); base_texts.append(txt)
+    # the boundary of the hour width, on every run: a field of 4300 digits is read (both kinds of stream), one of 4301 digits makes
+    # int() raise ValueError - in the begin or in the end time code
+    fb = gen_file(rng, dict(gen_features(rng), small=True)); fb["cues"] = fb["cues"][:1]
+    # (thorough tier: the field holds a number of 4300 digits, which costs minutes of evaluation in Coq; quick tier: leading zeros)
+    kb = gen_clock(rng, MAX_HOUR_DIGITS)
+    if thorough: kb = (rng.choice([10 ** MAX_HOUR_DIGITS - 1, 10 ** (MAX_HOUR_DIGITS - 1), rng.randrange(10 ** (MAX_HOUR_DIGITS - 1), 10 ** MAX_HOUR_DIGITS)]),) + kb[1:]
+    fb["cues"][0]["begin"] = kb
+    fb["cues"][0]["end"] = gen_clock(rng, rng.choice([2, MAX_HOUR_DIGITS]))
+    for tr in ((False, True) if not thorough else (rng.random() < 0.5,)): add_g("grammar", fb, print_file(fb), tr)
+    long_h = rng.choice("0159") * (MAX_HOUR_DIGITS + 1)
+    # the same limit in parse_color: a component of rgb() / rgba() of 4300 digits is a number, one of 4301 digits raises ValueError
+    for n in (MAX_HOUR_DIGITS, MAX_HOUR_DIGITS + 1):
+        comp = rng.choice("019") * n
+        add_t("malformed", "1\n00:00:01,000 --> 00:00:02,000\n<font color=\"" + rng.choice(["rgb(1,2,%s)", "rgba(%s,2,3,4)", "rgb( 1 , %s , 3 )"]) % comp + "\">x</font>\n", rng.random() < 0.5)
+    add_t("malformed", "1\n" + long_h + ":00:00,000 --> 00:00:01,000\nx\n", rng.random() < 0.5)
+    add_t("malformed", "1\n00:00:00,000 --> " + long_h + ":00:01,000\nx\n\n2\n00:00:05,000 --> 00:00:06,000\ny\n", rng.random() < 0.5)
     n_out = n_wout = 0
     for _ in range(n_writer):
         d = gen_doc(rng)
@@ -744,7 +821,7 @@ def main():
     with ThreadPoolExecutor(max(1, min(int(os.environ.get("C10_JOBS", "8")), C.NCPU))) as ex:
         res = dict(zip(paths, ex.map(coqc_case, paths)))
     names = ["print_ok", "g_model_ok", "g_modelled", "spec_ok", "model_spec", "t_model_ok", "t_modelled",
-             "w_print_ok", "w_spec_ok", "w_spec_strict", "w_notrig", "w_model_spec"]
+             "w_print_ok", "w_spec_ok", "w_model_spec"]
     bad = {n: [] for n in names}; broken = []
     for sh, p in zip(shards, paths):
         rc, out = res[p]
@@ -760,8 +837,8 @@ def main():
     n_unmod = len(bad["g_modelled"]) + len(bad["t_modelled"])
     run.log(f"{len(paths)} case files: model/code mismatches {len(bad['g_model_ok']) + len(bad['t_model_ok'])}, unmodelled {n_unmod}, "
             f"S failures on the code's results {len(bad['spec_ok'])}, M-vs-S on samples {len(bad['model_spec'])}, "
-            f"printer/grammar mismatches {len(bad['print_ok'])}, writer description: printer mismatches {len(bad['w_print_ok'])}, S failures {len(bad['w_spec_ok'])} "
-            f"(+{len(set(bad['w_spec_strict']) - set(bad['w_spec_ok']))} under the recorded finding), broken files {len(broken)}")
+            f"printer/grammar mismatches {len(bad['print_ok'])}, writer description: printer mismatches {len(bad['w_print_ok'])}, S failures {len(bad['w_spec_ok'])}, "
+            f"broken files {len(broken)}")
 
     # ---- verdict
     def g_replay(i):
@@ -776,10 +853,7 @@ def main():
     for i in bad["t_modelled"]: unmod_hist[tcases[i][0]] = unmod_hist.get(tcases[i][0], 0) + 1
 
     s_violation = False
-    # the recorded finding: reported only when the code really fails on an output its trigger covers
-    under_finding = sorted(set(bad["w_spec_strict"]) & set(bad["w_notrig"]))
-    if under_finding and not run.known(HOURS_FINDING, f"e.g. {wcases[under_finding[0]][2][:70]!r} is read as {wcases[under_finding[0]][3][0]}"):
-        bad["w_spec_ok"] += under_finding
+    # no finding is recorded for C10: every S failure is a violation
     rc, out = C.coqc(C.COQ + "/Findings/C10.v", 600)
     stale = []
     if rc != 0: stale.append("Findings/C10.v no longer compiles: " + out[-300:])
@@ -804,9 +878,9 @@ def main():
     mm.sort(key=lambda ki: len((gcases[ki[1]] if ki[0] == "g" else tcases[ki[1]])[-2]))
     if mm:
         k, i = mm[0]; c = gcases[i] if k == "g" else tcases[i]
-        tie.append(f"correspondence Model/SrtReader.v vs srt/reader.py disagrees on {len(mm)} texts, first ({c[0]}) {c[-2][:200]!r} -> implementation {str(c[-1])[:300]}")
+        tie.append(f"correspondence Model/SrtReader.v vs srt/reader.py disagrees on {len(mm)} texts, first ({c[0]}) {c[-2][:200]!r} -> implementation {show(c[-1])[:300]}")
     if bad["w_print_ok"]: tie.append(f"harness parse of the writer's output disagrees with Spec/SrtWriterOut.v `wprint`/`wwf` on {len(bad['w_print_ok'])} outputs, first {wcases[bad['w_print_ok'][0]][2][:200]!r}")
-    if bad["w_model_spec"]: tie.append(f"M differs from S on {len(bad['w_model_spec'])} writer outputs outside the recorded finding (the writer theorem's statement would be false), first {wcases[bad['w_model_spec'][0]][2][:200]!r}")
+    if bad["w_model_spec"]: tie.append(f"M differs from S on {len(bad['w_model_spec'])} writer outputs (the writer theorem's statement would be false), first {wcases[bad['w_model_spec'][0]][2][:200]!r}")
     if bad["print_ok"]: tie.append(f"harness printer / grammar disagree with Spec/SrtCueSpec.v on {len(bad['print_ok'])} files, first {gcases[bad['print_ok'][0]][3][:200]!r}")
     if bad["model_spec"]: tie.append(f"M differs from S on {len(bad['model_spec'])} generated grammar files (the round-trip theorem's statement would be false), first {gcases[bad['model_spec'][0]][3][:200]!r}")
     if broken: tie.append(f"case files did not evaluate: {broken[0]}")
@@ -823,19 +897,21 @@ def main():
     sample = None
     for c in gcases:
         if c[4][0] == "ok" and 1 <= len(c[1]["cues"]) <= 2 and len(c[3]) < 200: sample = dict(text=c[3], cues=flat(c[4])); break
-    if sample is None and gcases: sample = dict(text=gcases[0][3][:400], implementation=str(gcases[0][4])[:400])
-    if sample is None and tcases: sample = dict(text=tcases[0][2][:400], implementation=str(tcases[0][3])[:400])
+    if sample is None and gcases: sample = dict(text=gcases[0][3][:400], implementation=show(gcases[0][4])[:400])
+    if sample is None and tcases: sample = dict(text=tcases[0][2][:400], implementation=show(tcases[0][3])[:400])
     run.cov.update(evaluations=total * 2 + len(gcases) * 3 + len(wcases) * 3, distinct_nontrivial=nontrivial,
                    rule="evaluations = texts fed to ttconv.srt.reader.to_model, each compared in Coq with M (tree + exact times) and, for grammar / "
                         "writer files, judged by S (cues f) and cross-checked (print_file f = text, wf_file f, M vs S). Inputs: files printed from random "
-                        "abstract cue files (1-50 cues, HH and HHH hours, minutes/seconds 00-99, ms 000-999, 1-5 lines, nested/adjacent b/i/u/font tags in "
+                        "abstract cue files (1-50 cues, hour fields of 2 to 24 digits and now and then of 640 / 1000 / 4300 digits, minutes/seconds 00-99, ms 000-999, 1-5 lines, nested/adjacent b/i/u/font tags in "
                         "angle and short/long brace syntax, closers that close nothing, character references, CRLF/LF, blank-line runs, odd counters), outputs "
                         "of ttconv.srt.writer.from_model over random documents (judged twice: as grammar files and as instances of the writer description), "
-                        "a mutation stream and an unconstrained stream (M = code only: document / None / exception class). Each text is read through "
+                        "a mutation stream and an unconstrained stream (M = code only: document / None / exception class; both hold <font color>, "
+                        "<font color=\"\">, several color attributes with and without values, and hour fields of 4, 5, .. 40, 4300 and 4301 digits). Each text is read through "
                         "io.StringIO or through a text-mode file with universal newlines. distinct_nontrivial = distinct (text, stream) pairs with at least "
                         "one cue or from the malformed streams.",
                    samples=[sample] if sample else [], input_kinds=hist["kinds"], cues_per_file=hist["cues"], lines_per_cue=hist["lines"], stream=hist["mode"],
-                   crlf_files=hist["crlf"], unmodelled_by_M=n_unmod, writer_outputs_outside_grammar=n_out, writer_outputs_outside_description=n_wout,
+                   crlf_files=hist["crlf"], hour_field_width_in_grammar_files=hist["hour_width"], font_color_forms_in_other_texts=hist["font_color"],
+                   long_hour_fields_in_other_texts=hist["long_hours"], unmodelled_by_M=n_unmod, writer_outputs_outside_grammar=n_out, writer_outputs_outside_description=n_wout,
                    writer_outputs_as_described=len(wcases), writer_outputs_beyond_999h=hist.get("writer_beyond_999h", 0),
                    model_code_mismatches=len(mm), s_failures_on_code=len(set(unexcused)) + len(sfail_py),
                    outcomes_outside_grammar=outcome_hist, unmodelled_by_kind=unmod_hist)
@@ -843,7 +919,7 @@ def main():
         "html.parser.HTMLParser (CPython 3.12) is replaced in M by a hand-written tokenizer (start/end/self-closing tags with attributes and the "
         "end tag's name as endtagfind / tagfind_tolerant extract it, character references via the html.unescape tables, data); agreement is "
         "established by the correspondence run only, and M answers Unmodelled on constructs it does not transcribe (<!, <?, unterminated "
-        "tags/quotes, <script>/<style>, non-ASCII tag names or colour values)",
+        "tags/quotes, <script>/<style>, non-ASCII tag names)",
         "S (Spec/SrtCueSpec.v) is my reading of the SubRip conventions: a closing tag that does not name the innermost open tag closes nothing "
         "(and one that does name it is that tag's closer, so it is not in the grammar as a stray closer); brace tags are {b} {i} {u} and their "
         "long forms; a bare '&', '<' or '{' in cue text is outside the grammar (SubRip has no escape syntax)",
